@@ -18,6 +18,11 @@ REQUIRED_THEOREMS = [
     "TapkeeVerif.C05.isomap_full_k_eq_mds_partial",
     "TapkeeVerif.C05.isomap_full_k_eq_mds",
     "TapkeeVerif.C05.randomized_exact_on_low_rank",
+    "TapkeeVerif.C05.mdsPre_eq_JDJ",
+    "TapkeeVerif.C05.kpcaPre_eq_JKJ",
+    "TapkeeVerif.C05.mds_kyFan",
+    "TapkeeVerif.C05.factor_optimal",
+    "TapkeeVerif.C05.certificate_sound_slack",
     "TapkeeVerif.C05.mds_optimal",
     "TapkeeVerif.C05.kpca_optimal",
     "TapkeeVerif.C05.certificate_sound",
@@ -26,10 +31,20 @@ REQUIRED_THEOREMS = [
 
 
 # ----------------------------------------------------------------------------- case text
+def fullrec(c):
+    """the centred matrix handed to the solver is PSD of exact rank <= d: Y·Yᵀ must reproduce it (fine check, also for KPCA)"""
+    psd = c["inp"] == "pts" or (c["inp"] == "kern" and c["label"] in ("kern-psd", "kern-wide-mantissa"))
+    if not psd or c["N"] > 40:
+        return False
+    if "_fullrec" not in c:
+        c["_fullrec"] = pre_rank(c) <= c["d"]
+    return c["_fullrec"]
+
+
 def case_line(c):
     return ("mds method=%s N=%d d=%d solver=%s in=%s D=%d seed=%d exact=%d lowrank=%d data=%s"
             % (c["method"], c["N"], c["d"], c["solver"], c["inp"], c["D"], c["seed"], 1 if c["exact"] else 0,
-               1 if c["lowrank"] else 0, sp.mat_text(c["rows"])) + sp.decoy_fields(c))
+               1 if c["lowrank"] else 0, sp.mat_text(c["rows"])) + (" fullrec=1" if fullrec(c) else "") + sp.decoy_fields(c))
 
 
 def parse_case(line):
@@ -54,6 +69,7 @@ def subcase(c, keep):
     s["exact"] = c["exact"] and sp.is_pow2(s["N"])
     if c.get("sel"):
         s["sel"] = [c["sel"][i] for i in keep]      # the decoys stay where they are
+    s.pop("_fullrec", None)
     return s
 
 
@@ -157,6 +173,7 @@ def shrink(ctx, binary, c, sig, budget=40):
     for d in range(1, s["d"]):
         t = dict(s)
         t["d"] = d
+        t.pop("_fullrec", None)
         if in_quantifier(t) and judge(ctx, binary, [t])[0]["sig"] == sig:
             return t
     return s
@@ -213,7 +230,6 @@ def account(ctx, c, v):
         ctx.stat("rank<d" if c["rank"] < c["d"] else "rank=d" if c["rank"] == c["d"] else "rank>d")
     ctx.stat("mode:exact" if c["exact"] else "mode:approx")
     ctx.stat("id-range:shuffled-subset-with-decoys" if c.get("sel") else "id-range:identity")
-    m = sp.fields("x " + v.get("cmp", "").replace("cmp=", "")) if False else None
     cmp_ = v.get("cmp", "")
     if cmp_:
         for part in cmp_.split(","):
@@ -333,6 +349,40 @@ def gen_cases(ctx, quick):
                 add("anisotropic-exact-rank", "mds", solver, "pts", pts, N, D, d, False, rank)
                 add("anisotropic-exact-rank", "kpca", solver, "pts", pts, N, D, d, False, rank)
         add("anisotropic-exact-rank", "isomap", "dense", "pts", pts, N, D, rank, False, rank)
+        # 4d. WIDE anisotropy, Dense solver only (the Randomized solver's own relative 1e-9 dependence threshold ends at ratios
+        #     ~10^7): rank-2 strips whose two retained eigenvalues differ by up to 2^-44 (second axis shrunk by 2^-14 … 2^-22;
+        #     coordinates stay exact dyadics of <= 27 bits).  Every retained column is judged RELATIVE to its own eigenvalue.
+        N = r.range(5, 12)
+        D = r.range(2, 3)
+        pts = sp.anisotropic_points(r, N, D, 2, [r.choice([14, 18, 20, 21, 22])])
+        for d in (2, 3):
+            add("anisotropic-wide-dense", "mds", "dense", "pts", pts, N, D, min(d, N - 1), False, 2)
+            add("anisotropic-wide-dense", "kpca", "dense", "pts", pts, N, D, min(d, N - 1), False, 2)
+        add("anisotropic-wide-dense", "isomap", "dense", "pts", pts, N, D, 2, False, 2)
+        # 4e. values with MORE THAN 24 significant bits (a `float` anywhere on the path loses 2^-24 relative, far above the
+        #     2^-30 tolerances): precomputed distances a + j·2^-26 (29-30 bits), PSD kernels F·Fᵀ with 20-bit factors (entries
+        #     of ~43 bits, exactly representable), points with coordinates up to 2^20 plus 2^-8 fractions (28 bits)
+        N = r.choice([4, 8]) if r.chance(1, 2) else r.range(3, 10)
+        rows = [[Fraction(0)] * N for _ in range(N)]
+        for i in range(N):
+            for j in range(i + 1, N):
+                rows[i][j] = rows[j][i] = Fraction(r.range(1, 8)) + Fraction(2 * r.range(0, 2 ** 25) + 1, 2 ** 26)
+        for d in pick_ds(r, N, None, quick)[:2]:
+            add("dist-wide-mantissa", "mds", "dense", "dist", rows, N, 0, d, False, None)
+        N = r.choice([4, 8]) if r.chance(1, 2) else r.range(3, 10)
+        rk = r.range(1, min(3, N - 1))
+        F = [[r.range(-2 ** 19, 2 ** 19) * 2 + 1 for _ in range(rk)] for _ in range(N)]
+        rows = [[Fraction(sum(F[i][k] * F[j][k] for k in range(rk))) for j in range(N)] for i in range(N)]
+        for d in sorted({rk, min(rk + 1, N - 1)}):
+            add("kern-wide-mantissa", "kpca", "dense", "kern", rows, N, 0, d, False, None)
+            add("kern-wide-mantissa", "kpca", "rand", "kern", rows, N, 0, d, False, None)
+        N = r.range(4, 10)
+        D = r.range(1, 3)
+        pts = [[Fraction(r.range(-2 ** 20, 2 ** 20)) + Fraction(r.range(0, 255), 256) for _ in range(D)] for _ in range(N)]
+        d = min(D, N - 1)
+        for solver in ("dense", "rand"):
+            add("pts-wide-mantissa", "mds", solver, "pts", pts, N, D, d, False, D)
+            add("pts-wide-mantissa", "kpca", solver, "pts", pts, N, D, d, False, D)
         # 5. PSD kernels of every rank (precomputed), N = 2^m exact, other N approx
         N = r.choice(pow2) if r.chance(1, 2) else big_or_small(2)
         rank = r.range(1, N)
@@ -390,9 +440,10 @@ def correspond(ctx):
     ctx.log("%d generated cases" % len(cases))
     run_all(ctx, binary, cases)
     ctx.extra["failure_signature_counts"] = dict(ctx._c05_seen)
-    ctx.cov["rule"] = ("public-API runs of MDS / Kernel PCA / Isomap(k=N-1) on 8 input families (random symmetric integer and "
+    ctx.cov["rule"] = ("public-API runs of MDS / Kernel PCA / Isomap(k=N-1) on 12 labelled input families (random symmetric integer and "
                        "dyadic distance matrices, integer L1 metrics, Euclidean integer points of every rank, the same at "
-                       "magnitudes 2^-40 .. 2^30, anisotropic exact-rank strips / slabs with retained eigenvalue ratios 10^2 .. 10^7, PSD kernels of every rank, linear kernels), N <= %d, d in {1, rank, rank+1, N-1, random}, dense solver everywhere and the "
+                       "magnitudes 2^-40 .. 2^30, anisotropic exact-rank strips / slabs with retained eigenvalue ratios 10^2 .. 10^7 (both solvers) and down to 2^-44 (Dense), "
+                       "values with more than 24 significant bits (distances, kernels, points), PSD kernels of every rank, linear kernels), N <= %d, d in {1, rank, rank+1, N-1, random}, dense solver everywhere and the "
                        "randomized solver on inputs of rank <= d; in about half of the cases the library is handed a shuffled subset of a "
                        "larger id space (decoy samples in between) instead of the identity range; each run = one trace (hook matrix + solver output + embedding) "
                        "judged in exact rational arithmetic by model_c05; non-trivial = N >= 3; distinct by case text"
